@@ -47,6 +47,7 @@ type LogEntry struct {
 	Changed   bool           // stored bytes changed (resourceVersion bumped) or object removed
 	Removed   bool
 	Err       error
+	Injected  string // non-empty: the request never reached the store (injected fault kind)
 }
 
 type histEntry struct {
@@ -1113,6 +1114,9 @@ func fnv64(b []byte) uint64 {
 // Describe renders a log entry for the trace.
 func (e *LogEntry) Describe() string {
 	st := "ok"
+	if e.Injected != "" {
+		return fmt.Sprintf("%s %s %s injected:%s", e.Actor, e.Verb, e.Key, e.Injected)
+	}
 	if e.Err != nil {
 		st = "err:" + string(kerrors.ReasonForError(e.Err))
 		if kerrors.IsBadRequest(e.Err) {
@@ -1139,3 +1143,18 @@ func (e *LogEntry) Describe() string {
 // Serve registers a kind without storing a CRD object for it (used for the
 // core Crossplane CRDs, which are installed before any controller runs).
 func (s *Store) Serve(ki *KindInfo) { s.kinds[ki.GK] = ki }
+
+// LogInjected records a request that the fault injector answered itself.
+func (s *Store) LogInjected(c Caller, verb string, gvk schema.GroupVersionKind, ns, name, kind string) {
+	e := &LogEntry{Seq: len(s.Log), Step: s.StepFn(), Actor: c.Actor, TaskID: c.TaskID, TaskLabel: c.TaskLabel, Verb: verb,
+		Key: ObjKey{Group: gvk.Group, Kind: gvk.Kind, NS: ns, Name: name}, Injected: kind, Err: fmt.Errorf("injected %s", kind)}
+	s.Log = append(s.Log, e)
+	for _, f := range s.OnLog {
+		f(e)
+	}
+}
+
+// IsWrite reports whether the entry is a (non-dry-run) mutating request that reached the store.
+func (e *LogEntry) IsWrite() bool {
+	return e.Injected == "" && !e.DryRun
+}
